@@ -40,8 +40,16 @@ class ThreadedFactory:
 
         This method must be called if :py:func:`teardown_object` has been implemented.
         """
+        # tear down every object even if the teardown of one of them fails: the first failure is raised at the end
+        first_failure = None
         for obj in self._objects:
-            self.teardown_object(obj)
+            try:
+                self.teardown_object(obj)
+            except Exception as excp:
+                if first_failure is None:
+                    first_failure = excp
+        if first_failure is not None:
+            raise first_failure
 
     def setup_object(self) -> Any:
         """
